@@ -137,7 +137,8 @@ func AcceptedLength(regexString string) (AcceptedLengths, error) {
 			case syntax.InstAlt, syntax.InstAltMatch:
 				for _, s := range seen {
 					if s == pos {
-						cache[entry] = AcceptedLengths{math.MaxUint64, math.MaxUint64}
+						// this result is only valid while the loop at pos is being evaluated,
+						// don't cache it: entry might be reached again from outside the loop
 						return AcceptedLengths{math.MaxUint64, math.MaxUint64}, nil
 					}
 				}
